@@ -15,7 +15,7 @@ from mc.common import Result, h64
 from mc import fp
 from mc.lexer import LexError, lex
 
-from pypika_tortoise import AliasedQuery, Field, Query, Table
+from pypika_tortoise import Database, Schema, AliasedQuery, Field, Query, Table
 from pypika_tortoise import functions as FN
 from pypika_tortoise.queries import Column
 from pypika_tortoise.terms import Index
@@ -50,10 +50,17 @@ SITES = {
     "table_insert": lambda Q, N: Q.into(Table(N)).insert(1),
     "table_update": lambda Q, N: Q.update(Table(N)).set("a", 1),
     "table_delete": lambda Q, N: Q.from_(Table(N)).delete(),
-    "table_create": lambda Q, N: Query.create_table(Table(N)).columns("a"),
-    "table_drop": lambda Q, N: Query.drop_table(Table(N)),
+    "table_create": lambda Q, N: Q.create_table(Table(N)).columns("a"),
+    "table_drop": lambda Q, N: Q.drop_table(Table(N)),
+    "table_drop_schema": lambda Q, N: Q.drop_table(Table("t", schema=N)).if_exists(),
+    "table_create_str": lambda Q, N: Q.create_table(N).columns(Column("a", "INT")).if_not_exists(),
     "schema": lambda Q, N: Q.from_(Table("t", schema=N)).select("a"),
     "schema_nested": lambda Q, N: Q.from_(Table("t", schema=[N, "s"])).select("a"),
+    "schema_nested3_mid": lambda Q, N: Q.from_(Table("t", schema=["top9", N, "s9"])).select("a"),
+    "schema_nested3_first": lambda Q, N: Q.from_(Table("t", schema=(N, "mid9", "s9"))).select("a"),
+    "schema_nested4": lambda Q, N: Q.from_(Table("t", schema=["top9", "mid9", N, "s9"])).join(Table("u", schema=["top9", N])).on(
+        Table("t", schema=["top9", "mid9", N, "s9"]).id == Table("u", schema=["top9", N]).id).select("a"),
+    "schema_database": lambda Q, N: Q.from_(Table("t", schema=Schema("s9", parent=Database(N)))).select("a"),
     "column_select": lambda Q, N: Q.from_(T()).select(T().field(N)),
     "column_select_str": lambda Q, N: Q.from_(T()).select(N) if N != "*" else Q.from_(T()).select("a"),
     "column_where": lambda Q, N: Q.from_(T()).select("a").where(T().field(N) == 1),
@@ -75,11 +82,11 @@ SITES = {
     "index_use": lambda Q, N: Q.from_(T()).select("a").use_index(Index(N)),
     "for_update_of": lambda Q, N: Q.from_(T()).select("a").for_update(of=(N,)),
     "cte": lambda Q, N: Q.with_(Query.from_(U()).select("a"), N).from_(AliasedQuery(N)).select(AliasedQuery(N).a),
-    "ddl_column": lambda Q, N: Query.create_table("t").columns(Column(N, "INT"), "b").unique(N).primary_key(N),
+    "ddl_column": lambda Q, N: Q.create_table("t").columns(Column(N, "INT"), "b").unique(N).primary_key(N),
     # an earlier declared column that differs from the constraint's column only by letter case
-    "ddl_constraint_case": lambda Q, N: (Query.create_table("t").columns(Column(N.swapcase(), "INT"), Column(N, "INT")).unique(N).primary_key(N)
+    "ddl_constraint_case": lambda Q, N: (Q.create_table("t").columns(Column(N.swapcase(), "INT"), Column(N, "INT")).unique(N).primary_key(N)
                                          if N.swapcase() != N else None),
-    "ddl_constraint_case_late": lambda Q, N: (Query.create_table("t").columns(Column(N, "INT")).columns(Column(N.swapcase(), "INT")).unique(N.swapcase())
+    "ddl_constraint_case_late": lambda Q, N: (Q.create_table("t").columns(Column(N, "INT")).columns(Column(N.swapcase(), "INT")).unique(N.swapcase())
                                               if N.swapcase() != N else None),
     "update_from_subquery_alias": lambda Q, N: (lambda s: Q.update(T()).from_(s).set(T().a, s.x).where(T().id == s.id))(
         Q.from_(U()).select("id", "x").as_(N)),
@@ -91,8 +98,8 @@ SITES = {
     "delete_where_subquery_alias": lambda Q, N: (lambda s: Q.from_(T()).delete().where(T().id.isin(Q.from_(s).select(s.id))))(
         Q.from_(U()).select("id").as_(N)),
     "insert_select_subquery_alias": lambda Q, N: (lambda s: Q.into(T()).columns("a").from_(s).select(s.x))(Q.from_(U()).select("x").as_(N)),
-    "ddl_period": lambda Q, N: Query.create_table("t").columns("a", "b").period_for(N, "a", "b"),
-    "ddl_period_cols": lambda Q, N: Query.create_table("t").columns(N, "b").period_for("p", N, "b"),
+    "ddl_period": lambda Q, N: Q.create_table("t").columns("a", "b").period_for(N, "a", "b"),
+    "ddl_period_cols": lambda Q, N: Q.create_table("t").columns(N, "b").period_for("p", N, "b"),
     "setop_order_alias": lambda Q, N: Q.from_(T()).select(T().a.as_(N)).union(Q.from_(U()).select(U().a.as_(N))).orderby(T().a.as_(N)),
     "pg_returning": lambda Q, N: Q.into(T()).insert(1).returning(N) if Q.__name__ == "PostgreSQLQuery" else None,
     "pg_distinct_on": lambda Q, N: Q.from_(T()).distinct_on(N).select("a") if Q.__name__ == "PostgreSQLQuery" else None,
@@ -100,6 +107,8 @@ SITES = {
 }
 
 
+REQUIRED_IDS = {"schema_nested3_mid": ["top9", "s9", "t"], "schema_nested3_first": ["mid9", "s9", "t"], "schema_nested4": ["top9", "mid9", "s9", "t", "u"],
+                "schema_database": ["s9", "t"], "schema_nested": ["s", "t"]}
 EXPECT_ABSENT = {"alias_of_sibling_only"}
 EXPECT_COUNTS = {"ddl_constraint_case": (3, 1), "ddl_constraint_case_late": (1, 2)}
 
@@ -147,6 +156,19 @@ def run_case(case):
         return res
     res.nontrivial = 1
     sql = render(o, Q)
+    # the statement was created through the dialect's query class: str() and the argument-less get_sql() must give the same
+    # text as the explicit dialect context (a fallback to another context shows in the quote character)
+    for mode, fn in (("str", lambda: str(o)), ("noarg", lambda: o.get_sql())):
+        try:
+            alt = fn()
+        except TypeError:
+            continue
+        res.transitions += 1
+        if alt != sql:
+            res.violate("C07|%s|%s|%s-differs" % (site if "ddl" in site or site.startswith("table_") else "statement", d, mode),
+                        "%s of a statement built through the %s query class differs from its rendering with that dialect's context" % (mode, d),
+                        dialect=d, site=site, name=N, with_context=sql, got=alt)
+            return res
     key = (d, site)
     if key not in _BEN:
         bsql = render(SITES[site](Q, BENIGN), Q)
@@ -205,6 +227,10 @@ def run_case(case):
                 res.violate(sigbase + ("" if quote_in_name else "|structure"), "the name changed another token of the statement",
                             dialect=d, site=site, name=N, sql=sql, benign=bsql, token=t.text)
                 return res
+    for need in REQUIRED_IDS.get(site, ()):
+        if not any(t.kind == "ID" and t.value == need for t in toks):
+            res.violate("C07|%s|qualifier-lost" % site, "a qualifier of the multi-level name (%r) is not emitted" % need, dialect=d, site=site, name=N, sql=sql)
+            return res
     if site in EXPECT_ABSENT:
         if any(t.kind == "ID" and t.value == N for t in toks) and N not in ("a", "b", "t"):
             res.violate("C07|%s|undefined-name-emitted" % site, "a name that this statement does not define is emitted", dialect=d, site=site, name=N, sql=sql)
